@@ -46,7 +46,7 @@ Inc(c) ==
   ELSE "_"
 NewNick(n) == IF n = "" THEN "_" ELSE SubSeq(n, 1, Len(n) - 1) \o Inc(Ch(n, Len(n)))
 
-Privs == {"o", "v"}
+Privs == {"o", "v"}                          \* (a configuration may override Privs and PrivSets: owner q, admin a, half-op h)
 FlagSet == {"m", "s"}                        \* boolean channel modes the model server changes
 Flags0(c) == IF c = "#x" THEN {"n", "t"} ELSE {"s"}   \* modes of a channel when the client joins it
 FlagStr(S) == JoinWith(SetToSortSeq(S, LAMBDA a, b : Index("imnpstz", a) < Index("imnpstz", b)), "")
@@ -88,8 +88,10 @@ Src(n) == IF n = snick THEN ":" \o n \o "!" \o MyIdent \o "@" \o MyHost
 Srv == ":irc.example.net"
 
 \* the highest prefix NAMES shows for a privilege set
-Prefix(p) == IF "o" \in p THEN "@" ELSE IF "v" \in p THEN "+" ELSE ""
-Shown(p) == IF "o" \in p THEN {"o"} ELSE IF "v" \in p THEN {"v"} ELSE {}
+\* NAMES and WHO show only the highest privilege: ~ owner, & admin, @ op, % half-op, + voice
+Highest(p) == IF "q" \in p THEN "q" ELSE IF "a" \in p THEN "a" ELSE IF "o" \in p THEN "o" ELSE IF "h" \in p THEN "h" ELSE IF "v" \in p THEN "v" ELSE ""
+Prefix(p) == CASE Highest(p) = "q" -> "~" [] Highest(p) = "a" -> "&" [] Highest(p) = "o" -> "@" [] Highest(p) = "h" -> "%" [] Highest(p) = "v" -> "+" [] OTHER -> ""
+Shown(p) == IF Highest(p) = "" THEN {} ELSE {Highest(p)}
 
 Op(name, out, expect) == lastOp' = [ev |-> name, lines |-> out, expect |-> expect]
 Step == steps < MaxSteps /\ steps' = steps + 1
